@@ -97,7 +97,8 @@ func VerifC12Reuse(tries, calls, prevMode int) {
 			verifAssert(k.end-k.start == at, "earlier-call-ends-at-its-event")
 		}
 	}
-	verifObserveInt("writes", len(k.conn.log))
+	// (the total number of transmissions is not observed: when an earlier call's context ends or its
+	// response arrives at the very instant a retransmission is due, either order is legitimate)
 	c.Close()
 	verifReach("end")
 }
